@@ -38,6 +38,7 @@ class Exec(ExprMixin, CallMixin, StmtMixin):
     getattr_dyn_handlers = {}
     hash_handlers = {}
     fstring_handler = None
+    conv_handlers = {}
     global_values = {}
     global_calls = {}
     type_aliases = {}
@@ -51,6 +52,7 @@ class Exec(ExprMixin, CallMixin, StmtMixin):
         self.used_contracts = set()
         self.str_literals = set()
         self.string_mode = getattr(con, "string_mode", False)
+        self.type_aliases = dict(Exec.type_aliases, **getattr(con, "type_aliases", {}))
         self.closures = {}
         self.local_names = {a.arg for a in fn.args.args} | {n.id for n in ast.walk(fn) if isinstance(n, ast.Name) and isinstance(n.ctx, ast.Store)}
         self.param_objs = set()
@@ -62,6 +64,7 @@ class Exec(ExprMixin, CallMixin, StmtMixin):
         self.lemma_instances = set()
         self.inlined = []
         self.ghost_hooks = {}
+        self.join_hooks = {}
         self.loop_text_seen = {}
         self.last_sort = None
         self._ctx_init()
